@@ -304,6 +304,74 @@ theorem match_feature_words :
 example : isClassMethod ⟨[c!"not_a_classmethod", c!"hooks.classmethods.register"], c!"f", some c!"cls", []⟩ = false
     ∧ isClassMethod ⟨[c!"deco", c!"classmethod"], c!"f", none, []⟩ = true := by decide +kernel
 
+section ClassKinds
+open Tranp.AstPath
+
+/-- **Enum by membership, whatever the number and position of the bases.** For every class definition whose base list is
+    `ia` (each base starting with a type expression, as grammar.lark's `typed_argvalue` guarantees), `Enum.match_feature`
+    accepts exactly when the generated word `Enum` is the text of one of the bases. -/
+theorem classify_enum (e ia : Entry) (h : byTags e [c!"class_def_raw", c!"inherit_arguments"] = .ok ia) (hwf : basesWf ia = true) :
+    isEnum e = .ok ((baseNames ia).contains (constAt c!"Enum.match_feature" 2)) := by
+  have hw : constAt c!"Enum.match_feature" 2 = c!"Enum" := by decide +kernel
+  rw [hw]
+  unfold isEnum
+  rw [h]
+  simp only []
+  rw [mapM_ok_of_forall _ (fun inh => match inh.children.head? with | some t => tokens t | none => [])]
+  · rfl
+  · intro x hx
+    have hx' := List.all_eq_true.mp hwf x hx
+    cases hh : x.children.head? with
+    | none => simp [hh] at hx'
+    | some t => simp [hh] at hx'; simp [hx']
+
+/-- a class definition without a base list is not an Enum -/
+theorem classify_enum_no_bases (e : Entry) (err : CErr) (h : byTags e [c!"class_def_raw", c!"inherit_arguments"] = .error err) :
+    isEnum e = .ok false := by
+  unfold isEnum
+  rw [h]
+
+/-- **Class kinds are Python's.** The registered candidates of `class_def` are Enum, then Class; the first-match dispatch
+    gives a class definition the kind Python's reading gives it (`pyClassKind`: an enumeration iff the bare name `Enum` is
+    among the bases — one base or many, first, last or in between). -/
+theorem classify_class_def (root : Entry) (p : Path) (e ia : Entry)
+    (h : byTags e [c!"class_def_raw", c!"inherit_arguments"] = .ok ia) (hwf : basesWf ia = true) :
+    rowOf c!"class_def" = some [(c!"Enum", c!"Enum"), (c!"Class", c!"Node")]
+    ∧ firstMatch root p e [(c!"Enum", c!"Enum"), (c!"Class", c!"Node")] = .ok (pyClassKind (baseNames ia)) := by
+  refine ⟨by decide +kernel, ?_⟩
+  have h1 : matchFeature c!"Enum" root p e = isEnum e := by simp +decide [matchFeature]
+  have h2 : matchFeature c!"Node" root p e = .ok true := by simp +decide [matchFeature]
+  have hw : constAt c!"Enum.match_feature" 2 = c!"Enum" := by decide +kernel
+  have h3 := classify_enum e ia h hwf
+  rw [hw] at h3
+  unfold firstMatch
+  rw [h1, h3]
+  unfold pyClassKind
+  cases hc : (baseNames ia).contains c!"Enum"
+  · simp [firstMatch, h2]
+  · simp
+
+/-- a class definition without a base list is not an Enum -/
+theorem classify_class_def_no_bases (root : Entry) (p : Path) (e : Entry) (err : CErr)
+    (h : byTags e [c!"class_def_raw", c!"inherit_arguments"] = .error err) :
+    firstMatch root p e [(c!"Enum", c!"Enum"), (c!"Class", c!"Node")] = .ok (pyClassKind []) := by
+  have h1 : matchFeature c!"Enum" root p e = isEnum e := by simp +decide [matchFeature]
+  have h2 : matchFeature c!"Node" root p e = .ok true := by simp +decide [matchFeature]
+  unfold firstMatch
+  rw [h1, classify_enum_no_bases e err h]
+  simp [firstMatch, h2, pyClassKind]
+
+/-- non-vacuity of `classify_enum` / `classify_class_def`: `class B(str, Enum)` satisfies the hypotheses and is an Enum,
+    whatever the position of the base; names that merely contain the word give a Class -/
+example : byTags (cls2 [tv c!"str", tv c!"Enum"]) [c!"class_def_raw", c!"inherit_arguments"] = .ok (.tree c!"inherit_arguments" [tv c!"str", tv c!"Enum"]) := rfl
+example : basesWf (.tree c!"inherit_arguments" [tv c!"str", tv c!"Enum"]) = true
+    ∧ pyClassKind (baseNames (.tree c!"inherit_arguments" [tv c!"str", tv c!"Enum"])) = c!"Enum"
+    ∧ pyClassKind (baseNames (.tree c!"inherit_arguments" [tv c!"Enums", tv c!"MyEnum"])) = c!"Class" := by decide +kernel
+example : isEnum (cls2 [tv c!"Enum", tv c!"Mixin", tv c!"str"]) = .ok true := rfl
+example : isEnum (cls2 [tv c!"Mixin", tv c!"xEnum"]) = .ok false := rfl
+
+end ClassKinds
+
 /-- the candidate orders the decision functions hard-code are the registered ones -/
 theorem classify_rows :
     rowOf c!"function_def" = some [(c!"ClassMethod", c!"ClassMethod"), (c!"Constructor", c!"Constructor"),
